@@ -282,6 +282,12 @@ func (s *Server[StateT]) handleWriteFile(ctx *Context[StateT]) error {
 	}
 
 	written, err := s.Handler.HandleWriteFile(ctx, data)
+	// whatever the handler did, the announced payload belongs to this command:
+	// consume what is left of it so that the next command is read from the right place
+	if _, drainErr := io.Copy(io.Discard, data); drainErr != nil {
+		return fmt.Errorf("drain file data failed: %w", drainErr)
+	}
+
 	if err != nil {
 		return ctx.wr.SendWriteFileError()
 	}
